@@ -155,7 +155,10 @@ def peel_box(e):
         e2 = peel(e, SELF_THROUGH, casts=False)
         if e2[0] == "cast" and e2[3].startswith("*const") and e2[2][0] == "field" and e2[2][2] == "pointer":
             x = e2[2][1]
-            while x[0] == "field" and x[2] == 0:
+            # Box<T>(Unique<T>{pointer: NonNull<T>{pointer}}, A): strip the Box's own `.0` only
+            if x[0] == "field" and x[2] == "pointer" and x[3] is None:
+                x = x[1]
+            if x[0] == "field" and x[2] == 0 and x[3] is None:
                 x = x[1]
             e2 = x
         if e2 is e:
